@@ -5,6 +5,7 @@
 //     New/newGroupSignGenerator) and whether its argument is model.Param.GetGroupK(...)
 //   - every call of RecoverGroupSignature and whether it is reached only under
 //     `len(witnessSignMap) >= threshold`
+//
 // and writes lean/Rangers/Generated/Bn256Consts.lean and C13Sites.lean.
 // Pure go/ast; no go-rangers package is imported, so it runs even if the tree does not build.
 package main
@@ -120,7 +121,7 @@ func funcDecl(f *ast.File, recv, name string) *ast.FuncDecl {
 
 type site struct {
 	File, Func, Callee, Arg string
-	ViaGroupK                bool
+	ViaGroupK               bool
 }
 
 type rsite struct {
@@ -433,18 +434,34 @@ func main() {
 				addFields(fd.Recv)
 				addFields(fd.Type.Params)
 				addFields(fd.Type.Results)
+				// local names bound directly to a package-level variable (x := pkgVar, var x = pkgVar):
+				// a mutating method on such an alias writes the package variable
+				alias := map[string]bool{}
+				isPkgIdent := func(e ast.Expr) bool {
+					if u, ok := e.(*ast.UnaryExpr); ok && u.Op == token.AND {
+						e = u.X
+					}
+					id, ok := e.(*ast.Ident)
+					return ok && pkgVars[id.Name] && !local[id.Name]
+				}
 				ast.Inspect(fd.Body, func(n ast.Node) bool {
 					switch x := n.(type) {
 					case *ast.AssignStmt:
 						if x.Tok == token.DEFINE {
-							for _, l := range x.Lhs {
+							for i, l := range x.Lhs {
 								if id, ok := l.(*ast.Ident); ok {
+									if len(x.Rhs) == len(x.Lhs) && isPkgIdent(x.Rhs[i]) {
+										alias[id.Name] = true
+									}
 									local[id.Name] = true
 								}
 							}
 						}
 					case *ast.ValueSpec:
-						for _, nm := range x.Names {
+						for i, nm := range x.Names {
+							if len(x.Values) == len(x.Names) && isPkgIdent(x.Values[i]) {
+								alias[nm.Name] = true
+							}
 							local[nm.Name] = true
 						}
 					case *ast.RangeStmt:
@@ -480,7 +497,7 @@ func main() {
 				}
 				isPkg := func(e ast.Expr) bool {
 					r := root(e)
-					return r != "" && pkgVars[r] && !local[r]
+					return r != "" && ((pkgVars[r] && !local[r]) || alias[r])
 				}
 				ast.Inspect(fd.Body, func(n ast.Node) bool {
 					switch x := n.(type) {
